@@ -57,7 +57,8 @@ PROPS = {
                      "dischargers and a guard-checked justification table",
     },
     "C11": {
-        "rules": [r_fmt.lexicon_rows_reader, r_feat.run, r_feat.rawinput, r_feat.csvdefault, r_misc.lexmap_shape, r_misc.parallel,
+        "rules": [r_fmt.lexicon_rows_reader, r_feat.run, r_feat.rawinput, r_feat.csvdefault, r_misc.lexmap_shape, r_token.dispatch,
+                  r_misc.parallel,
                   kind_scope("dictionary::lexicon", "dictionary::unknown")],
         "explanation": "FMT(reader side): parse_csv stores CSV column 1, 2, 3 into left_id, "
                        "right_id, word_cost (column -> WordParam::new parameter -> field, KIND "
